@@ -12,14 +12,17 @@ A(i, o, f) == [ins |-> i, outs |-> o, fee |-> f, shift |-> 0, lock |-> 0, nrd |-
 \* 11    coinbase 3 -> 11 outputs (weight 235 > 226)           12 J 103 -> 122 (grandchild), high fee
 \* 13    NRD kernel (feature disabled)            14 coinbase 5 (immature until next height 8)
 \* 15    coinbase 0 -> 125 paying 1000 (far below the minimum 25000)
+\* 16 P  coinbase 2 -> 126 fee rate 10000       17 126 -> 127 fee rate 1000 (child)   18 127 -> 128 rate 4000 (grandchild)
+\* 19    coinbase 0 -> 129 fee rate 3000
 AtomsFull ==
   <<A({1}, {100, 101}, 46000), A({2}, {102}, 50000), A({100}, {103}, 25000), A({101, 102}, {104}, 26000),
     A({1}, {105}, 75000), A({3}, {106}, 24999),
     [A({3}, {107}, 37500) EXCEPT !.shift = 1], [A({3}, {108}, 50000) EXCEPT !.shift = 1],
     A({4}, {109}, 25000), [A({0}, {110}, 25000) EXCEPT !.lock = 7],
     A({3}, 111..121, 235000), A({103}, {122}, 100000),
-    [A({0}, {123}, 25000) EXCEPT !.nrd = TRUE], A({5}, {124}, 30000), A({0}, {125}, 1000)>>
-SubsFull == {{a} : a \in 1..15} \cup {{1, 2}, {1, 3}, {3, 12}, {2, 8}}
+    [A({0}, {123}, 25000) EXCEPT !.nrd = TRUE], A({5}, {124}, 30000), A({0}, {125}, 1000),
+    A({2}, {126}, 250000), A({126}, {127}, 25000), A({127}, {128}, 100000), A({0}, {129}, 75000)>>
+SubsFull == {{a} : a \in 1..19} \cup {{1, 2}, {1, 3}, {3, 12}, {2, 8}}
 
 \* small universe for exhaustive checking: parent with two outputs, second parent, child, two-parent child,
 \* conflicting spend, under-payer, immature coinbase spend, locked kernel
@@ -30,15 +33,15 @@ SubsSmall == {{a} : a \in 1..8} \cup {{1, 2}, {1, 3}}
 
 CONSTANTS MaxBlockTxs, MaxReorgDepth, SimProfile
 
-VARIABLE hist
-mcvars == <<chain, txpool, stempool, cache, last, nsteps, hist>>
+VARIABLES hist, script
+mcvars == <<chain, txpool, stempool, cache, last, nsteps, hist, script>>
 
 Proj == [txpool |-> txpool, stempool |-> stempool, height |-> Height]
 Step == IF last'.k = "Submit"
         THEN [k |-> "Submit", t |-> last'.t, stem |-> last'.stem, relay |-> last'.relay, res |-> last'.res,
               why |-> last'.why, evict |-> last'.evict, pre |-> last'.pre, allowed |-> last'.allowed, proj |-> Proj']
         ELSE [k |-> last'.k, d |-> last'.d, bs |-> last'.bs, proj |-> Proj']
-Record == hist' = IF last'.k \in {"Submit", "Connect", "Reorg"} THEN Append(hist, Step) ELSE hist
+Record == script' = script /\ hist' = IF last'.k \in {"Submit", "Connect", "Reorg"} THEN Append(hist, Step) ELSE hist
 
 \* ---------------- exhaustive ----------------
 BlockChoices == UNION {kSubset(n, AtomIds) : n \in 0..MaxBlockTxs}
@@ -49,8 +52,8 @@ MCNextBase ==
   \/ \E B \in BlockChoices : ConnectBlock(B)
   \/ \E d \in 1..MaxReorgDepth : \E bs \in Branches(d + 1) : Reorg(d, bs)
   \/ ShortReorg /\ \E bs \in Branches(1) : Reorg(2, bs)
-MCInit == Init /\ hist = <<>>
-MCNext == MCNextBase /\ UNCHANGED hist
+MCInit == Init /\ hist = <<>> /\ script = 0
+MCNext == MCNextBase /\ UNCHANGED <<hist, script>>
 MCNextRec == MCNextBase /\ Record
 MCSpecRec == MCInit /\ [][MCNextRec]_mcvars
 MCSpec == MCInit /\ [][MCNext]_mcvars
@@ -106,7 +109,35 @@ SimNext ==
      ELSE SimReorg
 MCSimSpec == MCInit /\ [][SimNext /\ Record]_mcvars
 
-Done == nsteps = MaxSteps
+\* ---------------- scripted scenarios (deterministic replay files for the boundary cases) ----------------
+Sub(t) == [k |-> "Submit", t |-> t, stem |-> FALSE]
+StemSub(t) == [k |-> "Submit", t |-> t, stem |-> TRUE]
+Blk(b) == [k |-> "Connect", b |-> b]
+Scripts == <<
+  \* 1: two pool parents (1 and 2), child 4 spending an output of each, capacity 2 forces an eviction
+  <<Sub({1}), Sub({2}), Sub({4}), Sub({19}), Sub({12})>>,
+  \* 2: parent 16 (high fee), child 17 (low fee, own bucket), grandchild 18, then 5: eviction
+  <<Sub({16}), Sub({17}), Sub({18}), Sub({5}), Sub({19})>>,
+  \* 3: stem tx 3 depends on pooled tx 1; pool fills; eviction of 1 must not leave 3 dangling in the stempool
+  <<Sub({1}), StemSub({3}), Sub({2}), Sub({8}), Sub({19}), StemSub({12})>>,
+  \* 4: coinbase maturity and lock height one block early / at the boundary (C13 pool clause)
+  <<Sub({9}), Sub({10}), Sub({14}), StemSub({9}), Blk({}), Sub({9}), Sub({10}), Sub({14}), Blk({9}), Sub({14}), StemSub({14}), Sub({14})>>,
+  \* 5: duplicates, aggregated forms of pooled txs, deaggregation, conflicts
+  <<Sub({1}), Sub({1}), Sub({1, 2}), Sub({2}), Sub({1, 3}), Sub({3}), Sub({5}), StemSub({5}), Sub({3, 12}), Blk({1, 2}), Sub({1}), Sub({12})>>
+>>
+ScriptInit == Init /\ hist = <<>> /\ script \in 1..Len(Scripts)
+ScriptNext ==
+  /\ nsteps < Len(Scripts[script])
+  /\ LET a == Scripts[script][nsteps + 1]
+     IN IF a.k = "Submit"
+        THEN /\ Submit(a.t, a.stem, TRUE)
+             /\ (last'.evict /\ last'.allowed # {}) => last'.victim = Guess(last'.pre, last'.allowed)
+        ELSE ConnectBlock(a.b)
+  /\ Record
+MCScriptSpec == ScriptInit /\ [][ScriptNext]_mcvars
+ScriptDone == script > 0 /\ nsteps = Len(Scripts[script])
+
+Done == nsteps = MaxSteps \/ ScriptDone
 Behaviour == [cfg |-> [trunk |-> Trunk, maxpool |-> MaxPool, maxstem |-> MaxStem, mineweight |-> MineWeight,
                        feebase |-> FeeBase, maturity |-> Maturity],
               atoms |-> Atoms, steps |-> hist]
